@@ -119,14 +119,13 @@ impl<'t, 'a, 'g> Gen<'t, 'a, 'g> {
         let d = self.cfg.max_depth.min(2);
         match (&v.ty, self.tape.below(4)) {
             (Ty::Num, 0) | (Ty::Num, 1) => {
-                let ops = ["+=", "-=", "*=", "/=", "%=", "&=", "|=", "^=", "<<=", ">>=", ">>>=", "**="];
+                // no `**=`: exponentiation of arbitrary operands is implementation-approximated
+                let ops = ["+=", "-=", "*=", "/=", "%=", "&=", "|=", "^=", "<<=", ">>=", ">>>="];
                 let mut op = ops[self.rr_pick("compound", ops.len())];
                 if matches!(op, "&=" | "|=" | "^=" | "<<=" | ">>=" | ">>>=") && self.gated("bitwise-large-operands") {
                     op = "+="; // the variable's current value may be outside the int32 range
                 }
-                let rhs = if op == "**=" {
-                    self.tape.range(0, 3).to_string()
-                } else if matches!(op, "&=" | "|=" | "^=" | "<<=" | ">>=" | ">>>=") && self.gated("bitwise-large-operands") {
+                let rhs = if matches!(op, "&=" | "|=" | "^=" | "<<=" | ">>=" | ">>>=") && self.gated("bitwise-large-operands") {
                     self.tape.range(0, 31).to_string()
                 } else {
                     self.expr(&Ty::Num, d)
@@ -507,13 +506,13 @@ impl<'t, 'a, 'g> Gen<'t, 'a, 'g> {
         if has_catch {
             let e = self.fresh("err");
             self.scopes.push(vec![]);
-            self.declare(&e, Ty::Any, true);
             let id = self.trace_id;
             self.trace_id += 1;
             let binding = if self.tape.chance(1, 8) {
                 self.tag("catch:no-binding");
                 String::new()
             } else {
+                self.declare(&e, Ty::Any, true);
                 format!(" ({})", e)
             };
             s.push_str(&format!(" catch{} {{\n", binding));
